@@ -6,6 +6,7 @@ import (
 	"go/token"
 	"os"
 	"path/filepath"
+	"regexp"
 	"sort"
 	"strconv"
 	"strings"
@@ -173,7 +174,7 @@ func init() {
 		out += "\ndef rhelRepositoryKey : String := " + LeanString(key) + "\n"
 		// the database-side range test: the SQL text the query builder adds for a
 		// VersionFilter matcher, and the range constructor of the insert statement
-		sqlLits, err := c03SQLFacts(repo)
+		need, cols, sqlLits, err := rxQueryBuilderFacts(repo)
 		if err != nil {
 			return "", err
 		}
@@ -187,10 +188,6 @@ func init() {
 		out += "\n/-- matchers/defaults/defaults.go: the packages of the elements of `defaultMatchers`, and the names\n    registered with a factory of their own. -/\n"
 		out += "def defaults : List String := " + LeanStrList(defs) + "\n"
 		out += "def defaultFactories : List String := " + LeanStrList(facs) + "\n"
-		need, cols, err := c03QueryColumns(repo)
-		if err != nil {
-			return "", err
-		}
 		out += "\n/-- datastore/postgres/querybuilder.go buildGetQuery: which part of the record a constraint needs\n    (`constraint:Distribution|Repository`), and the column / record field each constraint compares\n    (`constraint:column:value expression`). -/\n"
 		out += "def queryNeeds : List String := " + LeanStrList(need) + "\n"
 		out += "def queryColumns : List String := " + LeanStrList(cols) + "\n"
@@ -256,7 +253,8 @@ func c03VulnerableFacts(p *rxPkg, fd *ast.FuncDecl) (lits, ops []string) {
 				}
 			}
 		}
-		ast.Inspect(fd.Body, func(n ast.Node) bool {
+		var visit func(n ast.Node) bool
+		visit = func(n ast.Node) bool {
 			switch x := n.(type) {
 			case *ast.ExprStmt:
 				if c03RootIdent(x.X) == "zlog" {
@@ -330,13 +328,20 @@ func c03VulnerableFacts(p *rxPkg, fd *ast.FuncDecl) (lits, ops []string) {
 				// same file (exported functions and the version parsers of other files are API, not part of the body)
 				if depth < 2 {
 					if callee := p.rxCallee(x); callee != nil && !visited[callee] && !callee.Name.IsExported() && p.FileOf(callee) == home {
+						// the arguments are evaluated before the body runs
+						ast.Inspect(x.Fun, visit)
+						for _, a := range x.Args {
+							ast.Inspect(a, visit)
+						}
 						visited[callee] = true
 						walk(callee, depth+1)
+						return false
 					}
 				}
 			}
 			return true
-		})
+		}
+		ast.Inspect(fd.Body, visit)
 	}
 	walk(fd, 0)
 	return lits, ops
@@ -509,69 +514,6 @@ func rxQueryIf(p *rxPkg, recv, id string, query, configured []string, snap rxMat
 	return canon, nil
 }
 
-// c03SQLFacts reads the two places where the half-open range reaches SQL.
-func c03SQLFacts(repo string) ([]string, error) {
-	_, f, err := ParseFile(repo, "datastore/postgres/querybuilder.go")
-	if err != nil {
-		return nil, err
-	}
-	var lits []string
-	found := false
-	ast.Inspect(f, func(n ast.Node) bool {
-		is, ok := n.(*ast.IfStmt)
-		if !ok {
-			return true
-		}
-		se, ok := is.Cond.(*ast.SelectorExpr)
-		if !ok || se.Sel.Name != "VersionFiltering" {
-			return true
-		}
-		found = true
-		ast.Inspect(is.Body, func(m ast.Node) bool {
-			if bl, ok := m.(*ast.BasicLit); ok && (bl.Kind == token.STRING || bl.Kind == token.CHAR) {
-				if s, err := strconv.Unquote(bl.Value); err == nil {
-					lits = append(lits, s)
-				}
-			}
-			return true
-		})
-		return false
-	})
-	if !found {
-		return nil, fmt.Errorf("querybuilder.go: `if opts.VersionFiltering` not found")
-	}
-	_, g, err := ParseFile(repo, "datastore/postgres/updatevulnerabilities.go")
-	if err != nil {
-		return nil, err
-	}
-	n := 0
-	ast.Inspect(g, func(m ast.Node) bool {
-		if bl, ok := m.(*ast.BasicLit); ok && bl.Kind == token.STRING {
-			if s, err := strconv.Unquote(bl.Value); err == nil {
-				rest := s
-				for {
-					i := strings.Index(rest, "VersionRange(")
-					if i < 0 {
-						break
-					}
-					j := strings.Index(rest[i:], ")")
-					if j < 0 {
-						break
-					}
-					lits = append(lits, rest[i:i+j+1])
-					rest = rest[i+j+1:]
-					n++
-				}
-			}
-		}
-		return true
-	})
-	if n == 0 {
-		return nil, fmt.Errorf("updatevulnerabilities.go: no VersionRange(...) constructor found")
-	}
-	return lits, nil
-}
-
 // c03Pins reads the require lines of the three comparator libraries from go.mod.
 func c03Pins(repo string) ([]string, error) {
 	b, err := os.ReadFile(filepath.Join(repo, "go.mod"))
@@ -673,80 +615,205 @@ func c03Defaults(repo string) (defs, facs []string, err error) {
 	return defs, facs, nil
 }
 
-// c03QueryColumns reads the two switches over the constraint in buildGetQuery.
-func c03QueryColumns(repo string) (need, cols []string, err error) {
-	_, f, err := ParseFile(repo, "datastore/postgres/querybuilder.go")
+// rxQueryBuilderFacts evaluates datastore/postgres buildGetQuery (probe
+// "querybuilder"): the record given to it holds, in every field, a marker naming
+// the field, so the condition a constraint adds to the WHERE clause tells the
+// column and the record field it compares; building the query again without the
+// distribution / repository tells which part a constraint needs; building it with
+// version filtering tells the database-side range test.  The `VersionRange(...)`
+// constructor calls of the insert statement are read from the string constants of
+// the package.
+func rxQueryBuilderFacts(repo string) (need, cols, rangeTest []string, err error) {
+	drv, err := rxLoadPkg(repo, "libvuln/driver")
 	if err != nil {
-		return nil, nil, err
+		return nil, nil, nil, err
 	}
-	fd := FuncDecl(f, "", "buildGetQuery")
-	if fd == nil || fd.Body == nil {
-		return nil, nil, fmt.Errorf("querybuilder.go: buildGetQuery not found")
+	cNames, cVals, err := drv.IotaNames("MatchConstraint")
+	if err != nil {
+		return nil, nil, nil, err
 	}
-	ast.Inspect(fd.Body, func(n ast.Node) bool {
-		sw, ok := n.(*ast.SwitchStmt)
-		if !ok || sw.Tag == nil || c03ExprText(sw.Tag) != "m" {
-			return true
+	var ans struct {
+		Base, VersionFilter, KindMarker, DistCPE, RepoCPE string
+		Constraints                                       []struct {
+			C                               int
+			SQL, Err, State, NoDist, NoRepo string
+			Twice                           bool
 		}
-		for _, st := range sw.Body.List {
-			cc, ok := st.(*ast.CaseClause)
-			if !ok || len(cc.List) == 0 {
-				continue
+	}
+	ints := make([]int, len(cVals))
+	for i, v := range cVals {
+		ints[i] = int(v)
+	}
+	if err := rxProbe(repo, "querybuilder", map[string]any{"constraints": ints}, &ans); err != nil {
+		return nil, nil, nil, err
+	}
+	if ans.Base == "" || len(ans.Constraints) != len(ints) {
+		return nil, nil, nil, fmt.Errorf("querybuilder probe: no base query or short answer")
+	}
+	// the conditions of a WHERE clause: ("column" op 'value')
+	condRe := regexp.MustCompile(`\("([A-Za-z_."]+)" (=|!=|<>|<|>|<=|>=|LIKE|IS NOT|IS) ('(?:[^']|'')*'|NULL|TRUE|FALSE|-?[0-9]+)\)`)
+	conds := func(sql string) map[string][3]string {
+		m := map[string][3]string{}
+		for _, g := range condRe.FindAllStringSubmatch(sql, -1) {
+			m[g[0]] = [3]string{g[1], g[2], g[3]}
+		}
+		return m
+	}
+	base := conds(ans.Base)
+	field := func(lit string) string {
+		v := strings.ReplaceAll(strings.Trim(lit, "'"), "''", "'")
+		switch {
+		case strings.HasPrefix(v, "~rx:") && strings.HasSuffix(v, "~"):
+			return v[4 : len(v)-1]
+		case v == ans.DistCPE:
+			return "Distribution.CPE"
+		case v == ans.RepoCPE:
+			return "Repository.CPE"
+		}
+		return ""
+	}
+	gotCols := map[string]bool{}
+	gotNeed := map[string]bool{}
+	var colOrder, needOrder []string
+	for i, c := range ans.Constraints {
+		name := cNames[i]
+		if c.State != "ok" {
+			continue // a constraint buildGetQuery does not know (or cannot build): no row
+		}
+		var added [][3]string
+		var keys []string
+		for k := range conds(c.SQL) {
+			if _, ok := base[k]; !ok {
+				keys = append(keys, k)
 			}
-			var names []string
-			for _, e := range cc.List {
-				names = append(names, strings.TrimPrefix(c03ExprText(e), "driver."))
+		}
+		sort.Strings(keys)
+		cs := conds(c.SQL)
+		for _, k := range keys {
+			added = append(added, cs[k])
+		}
+		if len(added) == 0 {
+			row := name + ":no condition recognised in the query text"
+			gotCols[row] = true
+			colOrder = append(colOrder, row)
+		}
+		for _, a := range added {
+			var row string
+			f := field(a[2])
+			switch {
+			case a[1] == "=" && f != "":
+				row = name + ":" + a[0] + ":" + f
+			case a[1] == "!=" && a[2] == "''":
+				row = name + ":" + a[0] + ":!= ''"
+			default:
+				row = name + ":" + a[0] + ":" + a[1] + " " + a[2]
 			}
-			for _, b := range cc.Body {
-				switch y := b.(type) {
-				case *ast.IfStmt: // if record.X == nil { return error }
-					if be, ok := y.Cond.(*ast.BinaryExpr); ok && be.Op == token.EQL {
-						for _, nm := range names {
-							need = append(need, nm+":"+strings.TrimPrefix(c03ExprText(be.X), "record."))
+			gotCols[row] = true
+			colOrder = append(colOrder, row)
+		}
+		if !c.Twice {
+			row := name + ":named twice changes the query"
+			gotCols[row] = true
+			colOrder = append(colOrder, row)
+		}
+		for part, st := range map[string]string{"Distribution": c.NoDist, "Repository": c.NoRepo} {
+			switch st {
+			case "ok":
+			case "err":
+				gotNeed[name+":"+part] = true
+			default:
+				gotNeed[name+":"+part+":"+st] = true
+			}
+		}
+	}
+	for k := range gotNeed {
+		needOrder = append(needOrder, k)
+	}
+	sort.Strings(needOrder)
+	// print in the snapshot's order and spelling what the snapshot lists, then the rest
+	for _, r := range rxSnapQueryNeeds {
+		if gotNeed[r] {
+			need = append(need, r)
+			delete(gotNeed, r)
+		}
+	}
+	for _, r := range needOrder {
+		if gotNeed[r] {
+			need = append(need, r)
+		}
+	}
+	for _, r := range rxSnapQueryColumns {
+		if gotCols[r[1]] {
+			cols = append(cols, r[0])
+			delete(gotCols, r[1])
+		}
+	}
+	for _, r := range colOrder {
+		if gotCols[r] {
+			cols = append(cols, r)
+			delete(gotCols, r)
+		}
+	}
+	if len(need) == 0 || len(cols) == 0 {
+		return nil, nil, nil, fmt.Errorf("querybuilder: no constraint produced a condition / needs no part of the record")
+	}
+	// ---- version filtering
+	vf := conds(ans.VersionFilter)
+	kindCond := ""
+	for k, c := range vf {
+		if _, ok := base[k]; !ok && field(c[2]) == "Package.NormalizedVersion.Kind" {
+			kindCond = c[0] + " " + c[1]
+		}
+	}
+	sp := rxSnapRangeTest
+	expect := sp[4] + sp[0] + strings.Join([]string{"1", "2", "3", "4", "5", "6", "7", "8", "9", "10"}, sp[1]) + sp[2]
+	if kindCond == sp[3]+" =" && strings.Contains(ans.VersionFilter, " AND "+expect+")") && !strings.Contains(ans.Base, sp[4]) {
+		rangeTest = append(rangeTest, sp...)
+	} else {
+		// what version filtering adds, as text
+		i := 0
+		for i < len(ans.Base) && i < len(ans.VersionFilter) && ans.Base[i] == ans.VersionFilter[i] {
+			i++
+		}
+		j := 0
+		for j < len(ans.Base)-i && j < len(ans.VersionFilter)-i && ans.Base[len(ans.Base)-1-j] == ans.VersionFilter[len(ans.VersionFilter)-1-j] {
+			j++
+		}
+		rangeTest = append(rangeTest, "version filtering adds: "+ans.VersionFilter[i:len(ans.VersionFilter)-j])
+	}
+	// ---- the range constructor of the insert statement
+	pg, err := rxLoadPkg(repo, "datastore/postgres")
+	if err != nil {
+		return nil, nil, nil, err
+	}
+	n := 0
+	var ctor []string
+	for _, f := range pg.files {
+		ast.Inspect(f, func(m ast.Node) bool {
+			if bl, ok := m.(*ast.BasicLit); ok && bl.Kind == token.STRING {
+				if s, err := strconv.Unquote(bl.Value); err == nil {
+					rest := s
+					for {
+						i := strings.Index(rest, "VersionRange(")
+						if i < 0 {
+							break
 						}
-					}
-				case *ast.AssignStmt: // ex = goqu.Ex{"col": value}
-					if len(y.Rhs) != 1 {
-						continue
-					}
-					cl, ok := y.Rhs[0].(*ast.CompositeLit)
-					if !ok || len(cl.Elts) != 1 {
-						continue
-					}
-					kv, ok := cl.Elts[0].(*ast.KeyValueExpr)
-					if !ok {
-						continue
-					}
-					col, _ := strconv.Unquote(c03ExprText(kv.Key))
-					val := c03ExprText(kv.Value)
-					if u, ok := kv.Value.(*ast.UnaryExpr); ok {
-						val = "&" + c03ExprText(u.X)
-					}
-					if vcl, ok := kv.Value.(*ast.CompositeLit); ok && len(vcl.Elts) == 1 { // goqu.Op{exp.NeqOp.String(): ""}
-						if kv2, ok := vcl.Elts[0].(*ast.KeyValueExpr); ok {
-							val = c03ExprText(c03CallRecv(kv2.Key)) + " " + c03ExprText(kv2.Value)
+						j := strings.Index(rest[i:], ")")
+						if j < 0 {
+							break
 						}
-					}
-					for _, nm := range names {
-						cols = append(cols, nm+":"+col+":"+strings.TrimPrefix(val, "record."))
+						ctor = append(ctor, rest[i:i+j+1])
+						rest = rest[i+j+1:]
+						n++
 					}
 				}
 			}
-		}
-		return true
-	})
-	if len(need) == 0 || len(cols) == 0 {
-		return nil, nil, fmt.Errorf("querybuilder.go: constraint switches not recognised")
+			return true
+		})
 	}
-	return need, cols, nil
-}
-
-// c03CallRecv: x.M() -> x
-func c03CallRecv(e ast.Expr) ast.Expr {
-	if ce, ok := e.(*ast.CallExpr); ok {
-		if se, ok := ce.Fun.(*ast.SelectorExpr); ok {
-			return se.X
-		}
+	if n == 0 {
+		return nil, nil, nil, fmt.Errorf("datastore/postgres: no VersionRange(...) constructor found in the statements")
 	}
-	return e
+	rangeTest = append(rangeTest, ctor...)
+	return need, cols, rangeTest, nil
 }
